@@ -16,9 +16,12 @@ import (
 
 func init() { engines["loadfaults"] = engineLoadFaults }
 
-var c15Faults = []string{"valid", "valid-empty-list", "zero-bytes", "missing", "permission-denied", "is-a-directory", "dangling-symlink", "malformed-yaml", "wrong-shape", "binary-garbage"}
+var c15Faults = []string{"valid", "valid-empty-list", "zero-bytes", "missing", "permission-denied", "is-a-directory", "dangling-symlink", "malformed-yaml", "wrong-shape", "binary-garbage",
+	"symlink-loop", "unsearchable-parent"}
 
 func c15Make(path, fault string, cmds []vlib.Cmd) {
+	os.Chmod(path+".locked", 0o755)
+	os.RemoveAll(path + ".locked")
 	os.RemoveAll(path)
 	switch fault {
 	case "valid":
@@ -35,6 +38,14 @@ func c15Make(path, fault string, cmds []vlib.Cmd) {
 		os.MkdirAll(path, 0o755)
 	case "dangling-symlink":
 		os.Symlink(path+".nowhere", path)
+	case "symlink-loop": // something is there, and it is broken (ELOOP)
+		os.Symlink(filepath.Base(path), path)
+	case "unsearchable-parent": // the file lives in a directory that may not be searched (EACCES)
+		d := path + ".locked"
+		os.MkdirAll(d, 0o755)
+		vlib.WriteYAML(filepath.Join(d, "f.yml"), cmds)
+		os.Chmod(d, 0)
+		os.Symlink(filepath.Join(d, "f.yml"), path)
 	case "malformed-yaml":
 		os.WriteFile(path, []byte("- command: \"unterminated\n  description: x\n -bad indent: [\n"), 0o644)
 	case "wrong-shape":
@@ -131,6 +142,16 @@ func engineLoadFaults(ctx *Ctx) {
 			}
 		}
 	}
+	// steep / long back-off configurations: the product base*factor^(n-1) leaves the int64 range, yet every wait
+	// must stay within [previous wait, MaxDelay]. MaxDelay is tiny so the run does not actually sleep.
+	steep := []recovery.RetryConfig{
+		{MaxAttempts: 9, BaseDelay: time.Millisecond, MaxDelay: 200 * time.Microsecond, BackoffFactor: 1000},
+		{MaxAttempts: 12, BaseDelay: time.Second, MaxDelay: 100 * time.Microsecond, BackoffFactor: 1e6},
+		{MaxAttempts: 45, BaseDelay: 100 * time.Millisecond, MaxDelay: 50 * time.Microsecond, BackoffFactor: 2},
+		{MaxAttempts: 6, BaseDelay: time.Hour, MaxDelay: 0, BackoffFactor: 1e9},
+		{MaxAttempts: 8, BaseDelay: 1, MaxDelay: 300 * time.Microsecond, BackoffFactor: 1e4},
+		{MaxAttempts: 10, BaseDelay: time.Duration(1 << 62), MaxDelay: 10 * time.Microsecond, BackoffFactor: 3},
+	}
 	caseNo := 0
 	run := func(mf, pf, bf string, cfg recovery.RetryConfig, transientAt int) {
 		caseNo++
@@ -140,7 +161,7 @@ func engineLoadFaults(ctx *Ctx) {
 		cs := map[string]interface{}{"main": mf, "personal": pf, "backup": bf, "config": fmt.Sprintf("%+v", cfg), "transient_repair_at_attempt": transientAt}
 		ctx.R.Begin(cs)
 		ctx.R.Eval(1)
-		if (mf == "permission-denied" || pf == "permission-denied") && !unprivileged {
+		if (mf == "permission-denied" || pf == "permission-denied" || mf == "unsearchable-parent" || pf == "unsearchable-parent") && !unprivileged {
 			ctx.R.Inconcl("permission faults need an unprivileged process")
 			return
 		}
@@ -248,7 +269,8 @@ func engineLoadFaults(ctx *Ctx) {
 		if n > maxA {
 			viol("too-many-attempts", fmt.Sprintf("%d load attempts, configured maximum %d", n, cfg.MaxAttempts))
 		}
-		futile := transientAt == 0 && (mf == "missing" || mf == "permission-denied" || (c15Loads(mf) && pf == "permission-denied"))
+		futile := transientAt == 0 && (mf == "missing" || mf == "permission-denied" || mf == "unsearchable-parent" ||
+			(c15Loads(mf) && (pf == "permission-denied" || pf == "unsearchable-parent")))
 		if futile && n > 1 {
 			viol("futile-retry", fmt.Sprintf("a missing / permission-denied file (main: %s, personal: %s) was tried %d times", mf, pf, n))
 		}
@@ -276,7 +298,7 @@ func engineLoadFaults(ctx *Ctx) {
 			ctx.R.Path("multi-wait-sequences", 1)
 		}
 		ctx.R.Path("main:"+mf, 1)
-		if mf == "permission-denied" || pf == "permission-denied" {
+		if mf == "permission-denied" || pf == "permission-denied" || mf == "unsearchable-parent" || pf == "unsearchable-parent" {
 			ctx.R.Path("permission-faults-exercised", 1)
 		}
 		if transientAt > 0 {
@@ -309,6 +331,13 @@ func engineLoadFaults(ctx *Ctx) {
 				}
 			}
 		}
+	}
+	for _, cfg := range steep {
+		for _, mf := range []string{"malformed-yaml", "is-a-directory", "binary-garbage", "wrong-shape"} {
+			run(mf, "valid", "missing", cfg, 0)
+			ctx.R.Path("steep-backoff-configs", 1)
+		}
+		run("valid", "malformed-yaml", "missing", cfg, 0)
 	}
 	// the default configuration (100 ms base delay) on a few combinations
 	for i, c := range [][2]string{{"missing", "missing"}, {"valid", "missing"}, {"valid", "valid"}, {"malformed-yaml", "valid"}, {"permission-denied", "valid"}, {"valid", "permission-denied"},
